@@ -152,7 +152,7 @@ def run(ck):
                            'enumeral and value; non-trivial = contains a hyphen, an upper-case letter or is a keyword')
     ck.assumptions += ['identifiers are ASCII (the lexers accept nothing else)',
                        'keyword list of Spec/Idents.v = Rust reference, edition 2021 strict + reserved']
-    ck.prove('Props/C16.v', ['RasnV.Props.C16'], extra=['Corr/C16.vo'])
+    ck.prove('Props/C16.v', ['RasnV.Props.C16'], extra=['Corr/C16.vo'], titems=['T01', 'T02'])
     st = translate.run({'T01'})
     asn_kw = set(st.get('T01', {}).get('keywords', []))
     names = gen_names(ck)
@@ -170,7 +170,7 @@ def run(ck):
 
 
 def replay(ck, data):
-    ck.prove('Props/C16.v', ['RasnV.Props.C16'], extra=['Corr/C16.vo'])
+    ck.prove('Props/C16.v', ['RasnV.Props.C16'], extra=['Corr/C16.vo'], titems=['T01', 'T02'])
     st = translate.run({'T01'})
     asn_kw = set(st.get('T01', {}).get('keywords', []))
     cases = []
